@@ -98,7 +98,7 @@ func (x *Exec) strLit(s string) Term {
 		x.vc.declare("Str!empty", "Str")
 		t = Term{S: "Str!empty", Sort: "Str"}
 	} else {
-		name := "Str!lit!" + sanitize(s)
+		name := "Str!lit!" + litName(s)
 		x.vc.declare(name, "Str")
 		t = Term{S: name, Sort: "Str"}
 	}
@@ -614,7 +614,18 @@ func (x *Exec) assignTo(st *State, lhs ast.Expr, v Value) {
 			m := x.expr(st, l.X)
 			k := x.convertTo(st, x.expr(st, l.Index), u.Key(), l.Pos())
 			x.oblige(st, "nilmap", tNot(tEq(m.T, mathInt(0))), l.Pos(), "write to non-nil map "+types.ExprString(l.X))
-			x.vc.mapSet(st, u, m.T, k.T, x.convertTo(st, v, u.Elem(), l.Pos()).T)
+			nv := x.convertTo(st, v, u.Elem(), l.Pos())
+			if id, ok := l.X.(*ast.Ident); ok && x.ct != nil {
+				for _, w := range x.ct.Writes {
+					if w.Case == id.Name {
+						env := x.specEnv(st)
+						env.vars["k"] = k
+						env.vars["v"] = nv
+						x.oblige(st, "write", env.evalBool(w.Expr), l.Pos(), "store to "+id.Name+": "+w.Text)
+					}
+				}
+			}
+			x.vc.mapSet(st, u, m.T, k.T, nv.T)
 		default:
 			x.unsup(l.Pos(), "indexed assignment on %s", bt)
 		}
@@ -629,3 +640,17 @@ func (x *Exec) assignTo(st *State, lhs ast.Expr, v Value) {
 }
 
 func exprText(e ast.Expr) string { return strings.Join(strings.Fields(types.ExprString(e)), " ") }
+
+// litName gives an injective SMT-safe name for a string literal.
+func litName(s string) string {
+	plain := true
+	for _, c := range s {
+		if !((c >= 'a' && c <= 'z') || (c >= 'A' && c <= 'Z') || (c >= '0' && c <= '9')) {
+			plain = false
+		}
+	}
+	if plain {
+		return s
+	}
+	return fmt.Sprintf("x%x", s)
+}
